@@ -3,11 +3,12 @@ import NeoFS.Driver.Int256
 import NeoFS.Driver.Range
 import NeoFS.Driver.Grace
 import NeoFS.Driver.Arith
+import NeoFS.Driver.Timers
 open NeoFS NeoFS.Driver
 
 /-- State of all stateful models; pure models need none. -/
 structure DState where
-  dummy : Unit := ()
+  timers : NeoFS.Timers.ET := NeoFS.Timers.new []
 
 def stepLine (s : DState) (line : String) : DState × String :=
   let o := parseOp line
@@ -18,6 +19,7 @@ def stepLine (s : DState) (line : String) : DState × String :=
   | "range" => (s, rangeStep o)
   | "grace" => (s, graceStep o)
   | "arith" => (s, arithStep o)
+  | "timers" => let (t, out) := timersStep s.timers o; ({ s with timers := t }, out)
   | _ => (s, "=> bad-op")
 
 partial def loop (h : IO.FS.Stream) (out : IO.FS.Stream) (s : DState) : IO Unit := do
